@@ -35,6 +35,9 @@ def run_one(m, tier, seed):
                     if chk + ": " in line:
                         msg = line.split(chk + ": ", 1)[1][:160]
                         break
+                via = [l.split("replay=")[1] for l in p.stdout.splitlines() if l.startswith("VIOLATION")]
+                if via and all(os.path.basename(v).startswith("F") for v in via):
+                    msg = "[only by the regression replay %s] %s" % (",".join(os.path.basename(v) for v in via), msg)
                 res[chk] = "caught (%.0fs) %s" % (dt, msg)
             elif p.returncode == 0:
                 res[chk] = "MISSED (%.0fs)" % dt
